@@ -794,6 +794,7 @@ namespace jsoncons {
 
         void flatten_and_destroy() noexcept
         {
+            JSONCONS_VERIF_DESTROY_SCOPE;
             if (!data_.empty())
             {
                 json_array<Json> temp(get_allocator());
